@@ -11,8 +11,8 @@
    Names are ids: 2i / 2i+1 = forward / reflected dunder of the i-th binary operator of + - * / // % ** << >>
    & | ^, 24 __getitem__, 25 __neg__, 26 __call__, >= 28 attribute names.
    The explicit exclusions excl_fp_* / excl_mc_bin (coq/Ops/Model.v) are the listed findings F1..F5. *)
-From Coq Require Import List Bool Arith PeanoNat Lia.
-From PV Require Import Ops.Model Generated.C14_Builtins Ops.Proofs.
+From Coq Require Import List Bool PeanoNat.
+From PV Require Import Ops.Model Generated.C14_Builtins Ops.Proofs Ops.Closed.
 Import ListNotations.
 
 (* The closed obligations over the regenerated builtin rows, re-decided by vm_compute on every run:
@@ -131,14 +131,14 @@ Proof.
   unfold user_class_ok, user_ok, c14_nb. split; [|split].
   - intros _. split; [reflexivity|]. split.
     + exists [14]. split; [reflexivity|repeat constructor].
-    + intros k Hin Hk. simpl in Hin. destruct Hin as [<-|[<-|[]]]; [|lia]. split; [own_sim_tac|inst_sim_tac].
+    + intros k Hin Hk. simpl in Hin. destruct Hin as [<-|[<-|[]]]; [|exfalso; apply (Nat.nle_succ_0 _ Hk)]. split; [own_sim_tac|inst_sim_tac].
   - intros _. split; [reflexivity|]. split.
     + exists [15; 14]. split; [reflexivity|repeat constructor].
-    + intros k Hin Hk. simpl in Hin. destruct Hin as [<-|[<-|[<-|[]]]]; [| |lia];
+    + intros k Hin Hk. simpl in Hin. destruct Hin as [<-|[<-|[<-|[]]]]; [| |exfalso; apply (Nat.nle_succ_0 _ Hk)];
         (split; [own_sim_tac|inst_sim_tac]).
   - intros _. split; [reflexivity|]. split.
     + exists [16]. split; [reflexivity|repeat constructor].
-    + intros k Hin Hk. simpl in Hin. destruct Hin as [<-|[<-|[]]]; [|lia]. split; [own_sim_tac|inst_sim_tac].
+    + intros k Hin Hk. simpl in Hin. destruct Hin as [<-|[<-|[]]]; [|exfalso; apply (Nat.nle_succ_0 _ Hk)]. split; [own_sim_tac|inst_sim_tac].
 Qed.
 
 Example ex_verdicts :
